@@ -37,8 +37,8 @@ theorem fileEntry_cases (pf : Bytes → Option UInt64) (items : List Item) (hel 
     let o := fileEntry pf (exprFuel items) items
     (∃ ns, o.result = .ok ns ∧ o.received = items.length) ∨
     (∃ p, o.result = .error (.err p) ∧ o.drainCalled = true) ∨ o.result = .error .panic := by
-  have h := top_safe pf True True (fun _ => True) trivial items (fun _ _ => trivial)
-    (fun _ _ => Or.inl trivial) (fun _ _ _ _ _ => Or.inl trivial) (fun _ => hel)
+  have h := top_safe pf True ⟨True, False⟩ (fun _ => True) trivial items (fun _ _ => trivial)
+    (fun _ _ => Or.inl trivial) (fun _ _ _ _ _ => Or.inl trivial) (fun _ => hel) (fun h => absurd h id)
   unfold FSafe at h
   simp only
   unfold fileEntry
